@@ -8,6 +8,7 @@ package main
 
 import (
 	"fmt"
+	"os"
 	"runtime/debug"
 	"strconv"
 	"strings"
@@ -157,7 +158,16 @@ func (b *Bridge) Call(expr string, args ...data.Value) (res CallResult) {
 }
 
 func panicKey(res CallResult) string {
-	return "panic@" + lib.PanicSite(stripHarnessFrames(res.PanicStack))
+	return "panic@" + normSite(lib.PanicSite(stripHarnessFrames(res.PanicStack)))
+}
+
+// normSite makes a panic site independent of where the checked tree lives (lib.PanicSite
+// only knows /repo and module-cache paths; a scratch worktree has another prefix).
+func normSite(site string) string {
+	if repo := os.Getenv("VERIF_REPO"); repo != "" && strings.HasPrefix(site, repo+"/") {
+		return site[len(repo)+1:]
+	}
+	return site
 }
 
 // stripHarnessFrames drops the frames of debug.Stack / the deferred recover, so that
